@@ -114,9 +114,32 @@ def rule_size(ctx, F):
     b = _one(F, r"^net::server::middleware::edns::EdnsMiddlewareSvc::<.*>::preprocess$")
     if not ctx.anchor(R, "EdnsMiddlewareSvc::preprocess", b):
         return
-    sets = b.calls_matching(r"UdpTransportContext::set_max_response_size_hint$")
-    if not ctx.anchor(R, "set_max_response_size_hint call", len(sets) == 1, b.where()):
+    sets_all = b.calls_matching(r"UdpTransportContext::set_max_response_size_hint$")
+    sets = [(bb_, t_) for bb_, t_ in sets_all if any(s[0] == "call" and re.search(r"::udp_payload_size$", s[1] or "")
+                                                     for s in walk(b.term_of_operand(t_["args"][1])))]
+    plain = [(bb_, t_) for bb_, t_ in sets_all if (bb_, t_) not in sets]
+    if not ctx.anchor(R, "set_max_response_size_hint call with the negotiated size", len(sets) == 1, b.where()):
         return
+    # "or 512 without EDNS": a UDP request without an OPT record gets the classic limit, not the server's EDNS limit
+    ok512 = False
+    for bb_, t_ in plain:
+        v_ = deep_strip(b.term_of_operand(t_["args"][1]))
+        if v_[0] == "agg" and v_[1][:3] == ("adt", "core::option::Option", "Some") and const_value(deep_strip(v_[2][0])) == MIN:
+            ok512 = True
+    if not ok512:
+        # ... or the truncating middleware caps the limit itself for a request without OPT
+        tb = _one(F, r"^net::server::middleware::mandatory::MandatoryMiddlewareSvc::<.*>::truncate$")
+        if tb is not None:
+            for bb_, t_ in tb.calls():
+                if re.search(r"cmp::min$|Ord(<.*>)?::min$", t_["fn"] or "") and any(const_value(deep_strip(tb.term_of_operand(a))) == MIN for a in t_["args"]):
+                    noopt = any("::opt(" in show(tm) and (("is_none(" in show(tm) and v is True) or ("is_some(" in show(tm) and v is False) or v == ("variant", "None"))
+                                for tm, v, _e in facts_at(tb, bb_, F))
+                    if noopt:
+                        ok512 = True
+    ctx.ob(R, b, "a UDP request without an OPT record is limited to 512 octets", ok512,
+           "neither EdnsMiddlewareSvc::preprocess nor MandatoryMiddlewareSvc::truncate lowers the limit for a UDP request that carries "
+           "no OPT record; it stays at the server's configured EDNS limit (1232 by default): a requestor that does not speak EDNS is sent up to 1232 octets "
+           "without TC instead of at most 512 (RFC 1035 2.3.4, RFC 6891 7)")
     bb, t = sets[0]
     v = b.term_of_operand(t["args"][1])
     calls = [s for s in walk(v) if s[0] == "call" and s[1]]
@@ -199,7 +222,10 @@ def rule_trunc(ctx, F):
             ln = deep_strip(ln[2])
         while lim[0] == "cast":
             lim = deep_strip(lim[2])
-        exact = ln[0] == "call" and (ln[1] or "").endswith("::len") and lim[0] == "call" and re.search(r"::unwrap_or$", lim[1] or "")
+        # the limit is the hint (or its default), possibly capped (min) for requests without EDNS -- but never with slack added
+        exact = ln[0] == "call" and (ln[1] or "").endswith("::len") and \
+            any(s[0] == "call" and re.search(r"::unwrap_or$", s[1] or "") for s in walk(lim)) and \
+            not any(s[0] == "bin" and re.sub("(Unchecked|WithOverflow)", "", s[1]) in ("Add", "Sub", "Mul", "Div", "Shl", "Shr") for s in walk(lim))
         ctx.ob(R, b, "the whole response length is compared with the limit itself", bool(exact),
                "truncate compares %s with %s: the comparison must be `response length > limit` without slack, or responses "
                "one or two octets over the limit go out untruncated with TC clear" % (show(over[1])[:60], show(over[0])[:60]), b.where(tb))
